@@ -38,6 +38,7 @@ MALFORMED = {
     "empty_string": "",
     "one_gt": "CCO>CC=O",
     "missing": None,
+    "missing_nan": float("nan"),
 }
 EMPTYSIDE = {"empty_product": "CCOC>>", "empty_reactant": ">>CCN"}
 SOURCES = ["list_str", "list_dict", "csv", "json"]
@@ -65,7 +66,7 @@ def plan(tier, seed):
     kinds = list(MALFORMED) + list(EMPTYSIDE)
 
     def add(seq_kinds, bs, source):
-        if source == "list_str" and "missing" in seq_kinds:
+        if source == "list_str" and ("missing" in seq_kinds or "missing_nan" in seq_kinds):
             source = "list_dict"
         cases.append({"seq": build(seq_kinds, rng), "bs": bs, "source": source})
 
@@ -131,7 +132,7 @@ def make_input(case, tmp):
         w = csv.writer(f)
         w.writerow(["reaction", "tag"])
         for d in dicts:
-            w.writerow(["" if d["reaction"] is None else d["reaction"], d["tag"]])
+            w.writerow(["" if not isinstance(d["reaction"], str) else d["reaction"], d["tag"]])
     return Dataset(p)
 
 
@@ -211,7 +212,7 @@ def run_cli(spec, res):
             w = csv.writer(f)
             w.writerow(["reaction", "tag", "tag2"])
             for i, (_, v) in enumerate(seq):
-                w.writerow(["" if v is None else v, "t%d" % i, "u%d" % i])
+                w.writerow(["" if not isinstance(v, str) else v, "t%d" % i, "u%d" % i])
         cmd = [common.PY, "-m", "synrbl", "run", src, "-o", dst, "-p", "1",
                "--out-columns", ",".join(spec["cols"])]
         if spec["bs"]:
@@ -241,7 +242,7 @@ def run_cli(spec, res):
                     return
             row = dict(row)
             row["solved"] = row.get("solved") == "True"
-            if kind == "missing":
+            if kind in ("missing", "missing_nan"):
                 continue
             why = describe(kind, val, row)
             if why:
